@@ -51,7 +51,10 @@ func (rw *LegacyRewrite) matchesQType(qt uint16) (ok bool) {
 
 	// If the types match or the entry is set to allow only the other type,
 	// include them.
-	return rw.Type == qt || rw.IP == netip.Addr{}
+	// An exception entry only matches the requests of its own type as well,
+	// otherwise it could shadow a value of another type having the same
+	// wildcard pattern, since only one wildcard entry is used.
+	return rw.Type == qt
 }
 
 // normalize makes sure that the new or decoded entry is normalized with regards
